@@ -40,6 +40,7 @@ func ruleC08(w *World, r *Report) {
 		"R08.4 handlePFDMgmtRequest: the previous table is saved before ResetAppPFDs, ResetAppPFDs installs a fresh map without touching the old one, it dominates every write, every rejecting exit restores the saved table and the accepting exit does not."
 	r.Explanation += " R08.5 on the request path pdr.appFilter is only refined field by field, never replaced wholesale (the UE address stored by parsePDI survives a malformed filter text)."
 	r.Explanation += " R08.6 the UP4 application sharing key is made of exactly the fields the applications entry is built from, per direction, unaltered; WRAP obligations on the port expansion."
+	r.Explanation += " R08.7 = C04 R04.9 (IsAppFilterEmpty agrees with the applications key on all valuations); R08.8 = C17 R17.2 (port and mask of a rule come from the side they are expanded from); R08.9 the loops of the PFD handler are left early only towards a rejecting reply."
 	r.NotDecided = "that the filter means the text for every string of the grammar (round trip over an infinite language); net.ParseCIDR/strconv semantics"
 	sdf := w.Fn(P, "pfcpiface.(*pdr).parseSDFFilter")
 	app := w.Fn(P, "pfcpiface.(*pdr).parseApplicationID")
